@@ -88,6 +88,11 @@ pub fn exec(tok: &[&str]) -> String {
             let b = vh::felt_fft(&parse_ints::<u32>(tok[2]));
             ints(&vh::felt_ifft(&vh::felt_hadamard_mul(&a, &b)))
         }
+        // the convolution theorem read from the transform side: intt(v .* w) against intt(v), intt(w)
+        "intt_conv" => {
+            let (v, w) = (parse_ints::<u32>(tok[1]), parse_ints::<u32>(tok[2]));
+            format!("{} {} {}", ints(&vh::felt_ifft(&vh::felt_hadamard_mul(&v, &w))), ints(&vh::felt_ifft(&v)), ints(&vh::felt_ifft(&w)))
+        }
         "ref_negacyc" => ints(&crate::c11::schoolbook(&parse_ints::<u64>(tok[1]), &parse_ints::<u64>(tok[2]))),
         // ---- verify through the public API (C02, C03) --------------------------------------------------
         "verify" => {
